@@ -207,8 +207,8 @@ End Ops.
 
 Arguments upd {A} l i x.
 
-(* What collada/triangleset.py uses today for the per-vertex accumulation in generateNormals
-   (both classes) and generateTexTangentsAndBinormals: `numpy.add.at(norms, idx, n)`.
-   (Before the repair it was `norms[idx] += n`, i.e. [fancy_iadd]; see C18_fancy_iadd_refuted.) *)
-Definition code_accumulate (o : ops) : list (vec o) -> list nat -> list (vec o) -> list (vec o) :=
-  add_at o.
+(* What collada/triangleset.py uses today for the per-vertex accumulation in generateNormals (both
+   classes) and generateTexTangentsAndBinormals is [code_accumulate] in Gen/NormalsAcc.v, which
+   harness/translate/normalsacc.py regenerates from the Python source on every run: [add_at] for
+   `numpy.add.at(norms, idx, n)`, [fancy_iadd] for the former `norms[idx] += n`
+   (see C18_fancy_iadd_refuted). *)
